@@ -47,6 +47,11 @@ def chunks (n : Nat) : Nat → List Int → List (List Int)
   | 0, _ => []
   | fuel + 1, xs => xs.take n :: chunks n fuel (xs.drop n)
 
+/-- Elements per SIMD vblock of the ISA a hook line names. -/
+def epvOf (isa : String) : Option Nat :=
+  if isa == "generic" then some 32 else if isa == "avx2" then some 64
+  else if isa == "avx512" || isa == "avx512-vnni" then some 128 else none
+
 def handleBq (ws : List String) : Option String := do
   let kvs ← ws.mapM parseKv
   let mode ← field kvs "mode"
@@ -74,6 +79,8 @@ def handleBq (ws : List String) : Option String := do
   let useInt8 := ((mode == "int8" && (isa != "api" || m == 1)) || (mode == "op-int8" && m == 1))
     && k != 0
   let unsignedLhs := isa != "generic"
+  -- per-ISA hook lines are answered through the kernels' own index arithmetic
+  let hookEpv := epvOf isa
   let mut out : List Int := []
   for row in lhsRows do
     if useInt8 then
@@ -81,14 +88,20 @@ def handleBq (ws : List String) : Option String := do
       | none => return "skip"
       | some (l, rs) =>
         for (q, s) in colQ.zip colS do
-          match int8BlocksChecked unsignedLhs bs s rs l q with
-          | some v => out := v :: out
-          | none => return "err:scales"
+          match hookEpv with
+          | some epv => out := int8KernelDot epv bs nb s rs l q :: out
+          | none =>
+            match int8BlocksChecked unsignedLhs bs s rs l q with
+            | some v => out := v :: out
+            | none => return "err:scales"
     else
       for (q, s) in colQ.zip colS do
-        match refDotChecked bs s row q with
-        | some v => out := v :: out
-        | none => return "err:scales"
+        match hookEpv with
+        | some epv => out := floatKernelDot epv bs nb s row q :: out
+        | none =>
+          match refDotChecked bs s row q with
+          | some v => out := v :: out
+          | none => return "err:scales"
   return showRle out.reverse
 
 def errName : Err → String
@@ -123,11 +136,6 @@ def handleScales (ws : List String) : Option String := do
   | .error e => return s!"err:{errName e}"
   | .ok _ => return "ok unwritten=0"
 
-/-- Elements per SIMD vblock of the ISA a hook line names. -/
-def epvOf (isa : String) : Option Nat :=
-  if isa == "generic" then some 32 else if isa == "avx2" then some 64
-  else if isa == "avx512" || isa == "avx512-vnni" then some 128 else none
-
 /-- `sidx mode= isa= bs= nb=`: the scale index the kernel uses for every element position. -/
 def handleSidx (ws : List String) : Option String := do
   let kvs ← ws.mapM parseKv
@@ -153,11 +161,20 @@ def handleHot (ws : List String) : Option String := do
   let sc2 : Int := ((1 <<< ((col + kb) % 4) : Nat) : Int)
   return s!"k={k} col={col} val2={((q : Int) - 8) * sc2}"
 
+def handleQrow (ws : List String) : Option String := do
+  let kvs ← ws.mapM parseKv
+  let bs ← (← field kvs "bs").toNat?
+  let x ← parseRle (← field kvs "x")
+  match quantizeExact bs x.length x with
+  | none => return "skip"
+  | some (q, s) => return s!"q={showRle q} s={showRle s}"
+
 def handle (line : String) : String :=
   match words line with
   | "bq" :: ws => (handleBq ws).getD "bad-request"
   | "bqerr" :: ws => (handleErr ws).getD "bad-request"
   | "operr" :: _ => "err"
+  | "qrow" :: ws => (handleQrow ws).getD "bad-request"
   | "sidx" :: ws => (handleSidx ws).getD "bad-request"
   | "hot" :: ws => (handleHot ws).getD "bad-request"
   | "bqscales" :: ws => (handleScales ws).getD "bad-request"
